@@ -1224,6 +1224,14 @@ func (e *exh) phiEdgeExcluded(ph *ssa.Phi, i int, at *ssa.BasicBlock, ctx *Ctx) 
 		return false
 	}
 	facts := realFacts(factsAt(at))
+	// the edge leaves a block that is only reached when an error that is
+	// definitely non-nil tested nil (`if err := alwaysFails(); err != nil { return }`)
+	if i < len(ph.Block().Preds) {
+		pred := ph.Block().Preds[i]
+		if e.nilTestContradiction(realFacts(edgeFacts(pred, succIndex(pred, ph.Block())))) {
+			return true
+		}
+	}
 	for _, ins := range ph.Block().Instrs {
 		sib, ok := ins.(*ssa.Phi)
 		if !ok {
@@ -1234,6 +1242,35 @@ func (e *exh) phiEdgeExcluded(ph *ssa.Phi, i int, at *ssa.BasicBlock, ctx *Ctx) 
 		}
 		isNil, _ := nilFact(facts, sib)
 		if isNil && e.definitelyNonNilErr(sib.Edges[i], 0) {
+			return true
+		}
+	}
+	return false
+}
+
+// nilTestContradiction: one of the facts says that an error value which is
+// definitely non-nil (a constructed error, the result of a function all of
+// whose returns are such) is nil.
+func (e *exh) nilTestContradiction(fs []Fact) bool {
+	for _, f := range fs {
+		bo, ok := f.Cond.(*ssa.BinOp)
+		if !ok || (bo.Op != token.EQL && bo.Op != token.NEQ) {
+			continue
+		}
+		var x ssa.Value
+		switch {
+		case isNilConst(bo.Y):
+			x = bo.X
+		case isNilConst(bo.X):
+			x = bo.Y
+		default:
+			continue
+		}
+		if x.Type() == nil || !isErrorType(x.Type()) {
+			continue
+		}
+		saysNil := (bo.Op == token.EQL) == f.Truth
+		if saysNil && e.definitelyNonNilErr(x, 0) {
 			return true
 		}
 	}
@@ -1546,6 +1583,9 @@ func (e *exh) edgeOK(p *ssa.BasicBlock, si int, ctx *Ctx) bool {
 		return true
 	}
 	f := Fact{Cond: iff.Cond, Truth: si == 0}
+	if e.nilTestContradiction([]Fact{f}) {
+		return false
+	}
 	for _, subj := range factSubjects(f) {
 		k := e.kindOf(subj.Type())
 		if k == "other" || k == "funcs" {
